@@ -56,9 +56,10 @@ func (l Lit) String() string {
 
 // Step is one step of a structured path: a field access (Field != "") or an index.
 type Step struct {
-	Field string
-	Index bool
-	Lit   Lit
+	Field  string
+	Index  bool
+	Lit    Lit
+	OnList bool // annotation by the generator: the index addresses a list (only used to label spellings)
 }
 
 // F is a field step, I an index step.
@@ -440,7 +441,7 @@ func Show(v protoreflect.Value) string {
 // Spelling records which spellings a rendering used (for coverage cells and floors).
 type Spelling struct {
 	ExplicitRoot bool
-	Bases        map[string]bool // dec, hex, oct
+	Bases        map[string]bool // key-int:dec|hex|oct, list-index:dec|hex|oct
 	Quotes       map[string]bool // dq, sq
 	Escapes      map[string]bool // simple, hex, oct, u4, u8, raw-utf8
 	Negative     bool
@@ -496,8 +497,16 @@ func QuoteString(r *rand.Rand, s string, sp *Spelling) string {
 }
 
 // IntString spells an integer literal in decimal, hexadecimal or octal.
-func IntString(r *rand.Rand, l Lit, sp *Spelling) string {
+func IntString(r *rand.Rand, l Lit, sp *Spelling, site string) string {
 	var s string
+	defer func() {
+		for b := range sp.Bases {
+			if !strings.Contains(b, ":") {
+				delete(sp.Bases, b)
+				sp.Bases[site+":"+b] = true
+			}
+		}
+	}()
 	switch r.IntN(4) {
 	case 0:
 		s = "0x" + strconv.FormatUint(l.Mag, 16)
@@ -547,7 +556,11 @@ func Render(r *rand.Rand, rootName string, steps []Step) (string, *Spelling) {
 		case LBool:
 			b.WriteString(strconv.FormatBool(s.Lit.B))
 		default:
-			b.WriteString(IntString(r, s.Lit, sp))
+			site := "key-int"
+			if s.OnList {
+				site = "list-index"
+			}
+			b.WriteString(IntString(r, s.Lit, sp, site))
 		}
 		b.WriteByte(']')
 	}
@@ -705,7 +718,11 @@ func Fill(r *rand.Rand, msg protoreflect.Message, depth int) {
 			}
 		case fd.IsList():
 			l := msg.Mutable(fd).List()
-			for n := 1 + r.IntN(3); n > 0; n-- {
+			n := 1 + r.IntN(3)
+			if !isMsg && r.IntN(3) == 0 {
+				n = 9 + r.IntN(12) // indices whose octal, decimal and hex spellings differ
+			}
+			for ; n > 0; n-- {
 				if isMsg {
 					v := l.NewElement()
 					if r.IntN(6) != 0 {
@@ -796,11 +813,11 @@ func RandPath(r *rand.Rand, root protoreflect.Message, o GenOpts) []Step {
 			n := v.List().Len()
 			if n == 0 || r.IntN(100) < o.AbsentPct {
 				idx := []uint64{uint64(n), uint64(n) + 1, uint64(n) + uint64(r.IntN(1000)), math.MaxInt32, math.MaxInt64, 1 << 32}[r.IntN(6)]
-				steps = append(steps, I(UintLit(idx)))
+				steps = append(steps, Step{Index: true, Lit: UintLit(idx), OnList: true})
 				return extendBlind(r, steps, fd.Message(), o)
 			}
 			idx := r.IntN(n)
-			steps = append(steps, I(UintLit(uint64(idx))))
+			steps = append(steps, Step{Index: true, Lit: UintLit(uint64(idx)), OnList: true})
 			if fd.Kind() != protoreflect.MessageKind {
 				return steps
 			}
